@@ -12,9 +12,10 @@ RULES = {
     'C13.R4': 'skip bookkeeping: last_push reset before the child loop, incremented per enqueue; skip_subtree removes last_push entries from the enqueue end and resets last_push',
     'C13.R5': 'size bounds: lower bound after a skip is taken after the removals; an edge traversal does not start with the node count; size_hint of wrappers delegates to the traversal',
     'C13.R7': 'index validity = arena membership for every index-taking method of Tree (path_to_node, add_child_node, remove_all_descendants, node accessors)',
+    'C13.R8': 'depth bookkeeping: children are enqueued with the depth of the popped entry + 1',
     'C13.R6': 'index-order iterators filter on isleaf with the right polarity; num_terminals / num_nodes count the matching iterator',
 }
-FLOORS = {'C13.R1': 3, 'C13.R2': 3, 'C13.R3': 2, 'C13.R4': 6, 'C13.R5': 6, 'C13.R6': 8, 'C13.R7': 9}
+FLOORS = {'C13.R1': 3, 'C13.R2': 3, 'C13.R3': 2, 'C13.R4': 6, 'C13.R5': 6, 'C13.R6': 8, 'C13.R7': 9, 'C13.R8': 3}
 EXPLANATION = 'Sibling agreement between the three traversals and pairing/ordering rules on their bookkeeping.'
 DOES_NOT_DECIDE = 'exact visiting sequences, depth values, depth_stats, path_to_node arithmetic, numeric tightness of size_hint'
 LIFO_POP = {'Vec::pop'}
@@ -120,6 +121,20 @@ def r2(ctx, ty, m):
         ctx.ok('C13.R2', site, '%s frontier, children enqueued in %s label order: visited by ascending label' % (disc.upper(), 'reverse' if reversed_ else 'forward'), b.where(pushes[0][0]))
     else:
         ctx.bad('C13.R2', site, '%s frontier but children enqueued in %s label order: children would be visited by descending label' % (disc.upper(), 'reverse' if reversed_ else 'forward'), b.where(pushes[0][0]))
+    # R8: depth of an enqueued child = depth of the popped entry + 1
+    def plus_one(e, base):
+        x = e[1] if (e[0] == 'field' and e[2] == '0' and e[1][0] == 'bin') else e
+        return x[0] == 'bin' and x[1].startswith('Add') and s(x[2]) == s(base) and x[3] == ('const', 1)
+    popped = ('call', pops[0][1], (pushes[0][2][0],), pops[0][0])
+    if val[0] == 'agg' and isinstance(val[1], tuple) and val[1][1] == 'DfsNodeData':
+        dexpr, dbase = val[2][0], ('field', popped, 'depth')
+    elif val[0] == 'agg' and val[1] == 'tuple' and len(val[2]) == 4:
+        dexpr, dbase = val[2][0], ('field', popped, '0')
+    else:
+        dexpr = dbase = None
+    if dexpr is not None:
+        (ctx.ok if plus_one(dexpr, dbase) else ctx.bad)('C13.R8', '%s::next#depth' % ty, 'children are enqueued with depth(parent) + 1' if plus_one(dexpr, dbase) else
+                                                       'child depth is not the popped entry\'s depth + 1: %s' % fmt(dexpr)[:80], b.where(pushes[0][0]))
     # R3: sibling counter for node traversals
     if val[0] == 'agg' and isinstance(val[1], tuple) and val[1][1] == 'DfsNodeData':
         idx, nrem = val[2][1], val[2][2]
